@@ -18,6 +18,8 @@ A case (JSON-able, = the replay payload):
   decapi   "line" | "all": AnsiDecoder.decode_line per line / AnsiDecoder.decode of the whole output
   consoles [cfg]: system (or "auto" + TERM / COLORTERM), nocolor (by argument or by NO_COLOR in the environment),
            force (force_terminal True / False / None = ask the file), tty (the file claims to be one), legacy, record"""
+import os
+import sys
 import io
 
 from engine import tlc
@@ -501,6 +503,46 @@ def judge(chk, recs, meta, label, prefix=""):
     return verdicts
 
 
+def repo_suite_traces(chk):
+    """Code -> spec on the repository's OWN executions: the tree's test-suite runs under tools/pytest_sgrtrace.py, which logs one
+    Trace_Sgr record per Console._render_buffer call (segments in, characters out); TLC judges each with the terminal automaton.
+    Whether the tests themselves pass is not our business; a tree without tests/ is skipped (noted in the evidence)."""
+    import json, subprocess, tempfile
+    from engine.harness import rich_src, VERIF
+    src = rich_src()
+    if not os.path.isdir(os.path.join(src, "tests")):
+        chk.notes["repo_suite_traces"] = "skipped: no tests/ in the tree under test"
+        return
+    out = tempfile.mktemp(prefix="sgrtrace-", suffix=".json", dir=os.path.join(VERIF, ".work") if os.path.isdir(os.path.join(VERIF, ".work")) else None)
+    env = dict(os.environ, SGRTRACE_OUT=out, PYTHONPATH=VERIF + os.pathsep + src, VERIF_NO_WATCHDOG="1")
+    env.pop("PYTEST_ADDOPTS", None)
+    try:
+        subprocess.run([sys.executable, "-m", "pytest", "-q", "-x", "--co", "-q", "-p", "no:cacheprovider", "tests"], cwd=src, env=env,
+                       stdout=subprocess.DEVNULL, stderr=subprocess.DEVNULL, timeout=300)
+        subprocess.run([sys.executable, "-m", "pytest", "-q", "-p", "no:cacheprovider", "-p", "tools.pytest_sgrtrace", "tests"], cwd=src, env=env,
+                       stdout=subprocess.DEVNULL, stderr=subprocess.DEVNULL, timeout=900)
+        with open(out) as f:
+            data = json.load(f)
+    except Exception as ex:          # the suite could not be run or recorded here: nothing to judge (not a verdict)
+        chk.notes["repo_suite_traces"] = "skipped: %s" % type(ex).__name__
+        return
+    finally:
+        if os.path.exists(out):
+            os.remove(out)
+    recs = data["records"]
+    verdicts, st = tlc.judge("Trace_Sgr", recs, chunk_min=12, tag="judge-suite")
+    chk.add_tlc(st, "M3-repo-suite")
+    chk.traces += len(recs)
+    chk.notes["repo_suite_traces"] = dict(data["stats"], judged=len(recs))
+    for rec, v in zip(recs, verdicts):
+        styled = any(l["on"] or l["fg"]["k"] not in ("def", "unset") or l["bg"]["k"] not in ("def", "unset") for sg in rec["segs"] for l in sg["layers"])
+        chk.case(("suite", rec.get("test"), len(rec["out"]), repr(rec["out"][:12])), styled)
+        if v != "ok" and not v.startswith("decoder"):
+            eff = rec["cfg"]
+            chk.reject("%s system=%s nocolor=%s terminal=%s legacy=%s mode=repo-test-suite" % (v, eff["system"], eff["nocolor"], eff["terminal"], eff["legacy"]),
+                       "%s in %s" % (v, rec.get("test")), dict(suite_record=rec))
+
+
 def _disarm_watchdog_at_exit():
     """engine/watch.py's repeating CPU tick is still armed when the interpreter shuts down; once Python has restored the default
     signal dispositions a tick kills the process (SIGVTALRM) and the exit status of a finished check is lost - seen after the
@@ -542,3 +584,4 @@ def run(chk: Check):
     if recs:
         case, i = meta[-1]
         chk.sample(dict(case=describe(case, i), printed_on=recs[-1]["cfg"], output_events=recs[-1]["out"][:25]))
+    repo_suite_traces(chk)
